@@ -113,13 +113,16 @@ def impl_observe_graph(case, discs=None) -> dict[str, Any]:
     obs["outcoup"] = [list(cs.get_output_couplings(d, strong=True)) for d in discs]
     obs["incoup_all"] = [list(cs.get_input_couplings(d, strong=False)) for d in discs]
     obs["outcoup_all"] = [list(cs.get_output_couplings(d, strong=False)) for d in discs]
+    obs["edges"] = sorted((_idx(discs, a), _idx(discs, b), list(v)) for a, b, v in cs.graph.get_disciplines_couplings())
+    edges_s = ";".join(f"{a}>{b}:{','.join(v)}" for a, b, v in obs["edges"]) or "[]"
     grp_s = ";".join(",".join(map(str, g)) for g in sorted(obs["scd_groups"], key=lambda g: (min(g), g))) or "[]"
     obs["line"] = (
         f"seq={canon_seq(seq)} strong={names(obs['strong'])} weak={names(obs['weak'])} all={names(obs['all'])} "
         f"scd={idxs(sorted(obs['scd']))} wcd={idxs(sorted(obs['wcd']))} scd0={idxs(sorted(obs['scd_noself']))} "
         f"grp={grp_s} self={idxs(obs['selfc'])} "
         f"ic={'/'.join(names(x) for x in obs['incoup']) or '[]'} oc={'/'.join(names(x) for x in obs['outcoup']) or '[]'} "
-        f"ica={'/'.join(names(x) for x in obs['incoup_all']) or '[]'} oca={'/'.join(names(x) for x in obs['outcoup_all']) or '[]'}"
+        f"ica={'/'.join(names(x) for x in obs['incoup_all']) or '[]'} oca={'/'.join(names(x) for x in obs['outcoup_all']) or '[]'} "
+        f"edges={edges_s}"
     )
     return obs
 
@@ -210,6 +213,10 @@ def oracle_graph(case, obs) -> list[tuple[str, str]]:
         if scc_of[a] != scc_of[b] and not (stage_of[a] < stage_of[b]):
             bad.append(("producer-not-before", f"discipline {a} produces an input of {b} but is scheduled at stage {stage_of[a]} >= {stage_of[b]}"))
             break
+    # 0. the dependency graph itself: edge i -> j labelled with the outputs of i that are inputs of j
+    want_edges = sorted((a, b, sorted(set(discs[a]["out"]) & set(discs[b]["in"]))) for a, b in edges)
+    if obs["edges"] != want_edges:
+        bad.append(("edge-labels", f"get_disciplines_couplings() = {obs['edges']}, the names imply {want_edges}"))
     # 4. coupling sets implied by the graph
     on_cycle = [len(scc_of[i]) > 1 or bool(set(discs[i]["in"]) & set(discs[i]["out"])) for i in range(n)]
     strong = set()
@@ -301,6 +308,9 @@ def impl_observe_chain(case) -> dict[str, Any]:
             ch = MDAChain(ds, **kw)
         ins = sorted(ch.io.input_grammar)
         outs = sorted(n for n in ch.io.output_grammar if n != RESIDUAL_NAME)
+        for pre in case.get("pre") or []:
+            # history: earlier executions of the same process object (other values, or the very same ones)
+            ch.execute({k: np.array([float(Fraction(v))]) for k, v in pre.items() if k in ch.io.input_grammar})
         inp = {k: np.array([float(Fraction(v))]) for k, v in case["ext"].items() if k in ch.io.input_grammar}
         data = ch.execute(inp)
         vals = {}
@@ -605,7 +615,11 @@ def gen_system(rng: common.Rng, max_n: int = 6) -> dict[str, Any]:
     allin = {v for d in discs for v in d["in"]}
     allout = {v for d in discs for v in d["out"]}
     ext = {x: rat(Fraction(rng.randint(-4, 4), 2)) for x in sorted(allin - allout) if rng.chance(0.85)}
-    return {"discs": discs, "lin": lin, "ext": ext, "mode": "mda"}
+    pre = []
+    if rng.chance(0.4):
+        for _ in range(rng.pick([1, 1, 2])):
+            pre.append(dict(ext) if rng.chance(0.3) else {x: rat(Fraction(rng.randint(-4, 4), 2)) for x in ext})
+    return {"discs": discs, "lin": lin, "ext": ext, "pre": pre, "mode": "mda"}
 
 
 def with_nodefault(rng: common.Rng, case) -> dict[str, Any]:
@@ -841,6 +855,7 @@ def check_chain_cases(res: Result, cases, procs: int = 1) -> None:
         res.count(f"chain:mode={mode}")
         res.count(f"chain:n={n}")
         res.count("chain:" + ("in-scope" if scope else "probe") + (":cyclic" if cyc else ":acyclic"))
+        res.count(f"chain:earlier-executions={len(case.get('pre') or [])}")
         if n >= 2:
             res.nontrivial(line + "#" + mode)
         res.sample({"protocol_line": line, "mode": mode, "impl": il, "model": m}, cap=8)
